@@ -45,6 +45,11 @@ theorem startSrc_log (cfg : Cfg) (src : Src) (ctx : Option Nat) (g : G) (h : Log
   | unit => exact h
   | sharedReady r => exact h
   | sharedContract p f => exact fun _ _ => ⟨h, trivial⟩
+  | sharedKept p f pre =>
+    simp only [startSrc]
+    cases hs : g.isSet p pre
+    · exact fun _ _ => ⟨h, trivial⟩
+    · exact h
 
 theorem startLazy_log (cfg : Cfg) (src : Src) (ovr : Option Exec) (ctx : Option Nat) (g : G) (h : LogOk cfg g []) :
     match startLazy cfg src ovr ctx g with
@@ -65,6 +70,7 @@ theorem startLazy_log (cfg : Cfg) (src : Src) (ovr : Option Exec) (ctx : Option 
   | unit => simpa [startLazy] using startSrc_log cfg .unit ctx g h
   | sharedReady r => simpa [startLazy] using startSrc_log cfg (.sharedReady r) ctx g h
   | sharedContract p f => simpa [startLazy] using startSrc_log cfg (.sharedContract p f) ctx g h
+  | sharedKept p f pre => simpa [startLazy] using startSrc_log cfg (.sharedKept p f pre) ctx g h
 
 theorem asyncFinish_log (cfg : Cfg) (ty : Nat) (own : Exec) (k : List Step) (lazy : Bool) (ctx : Option Nat) (o : Out)
     (h : LogOut cfg o) : LogOut cfg (asyncFinish ty own k lazy ctx o) := by
@@ -339,7 +345,8 @@ theorem linv_step (cfg : Cfg) (st : State) (ev : Event) (hinv : LInv cfg st) : L
       | promise q f =>
         simp only []
         split
-        · exact linv_settle cfg _ _ (resume_log cfg t none g hi.1 hi.2 (fun jid k jk h => by rw [hw] at h; cases h))
+        · exact linv_settle cfg _ _ (resume_log cfg t none (g.markSet p) (logOk_acct hi.1 rfl rfl rfl)
+            (by have := hi.2; simpa [PendOk] using this) (fun jid k jk h => by rw [hw] at h; cases h))
         · exact Or.inr hi
     | idle => exact Or.inr hi
     | task src steps => exact Or.inr hi
